@@ -49,7 +49,12 @@ func parsedNumber(v ssa.Value) bool {
 
 // upperBounded: some If that dominates b through its "smaller" branch compares
 // (a value derived from) v with a constant from above.
-func upperBounded(b *ssa.BasicBlock, v ssa.Value) bool {
+func upperBounded(b *ssa.BasicBlock, v ssa.Value) bool { return boundedBy(b, v, true) }
+
+// lowerBounded: the same from below (`v < 0` rejected, `v >= 1` required …).
+func lowerBounded(b *ssa.BasicBlock, v ssa.Value) bool { return boundedBy(b, v, false) }
+
+func boundedBy(b *ssa.BasicBlock, v ssa.Value, upper bool) bool {
 	for d := b; d != nil; d = d.Idom() {
 		for _, p := range d.Preds {
 			ifi, ok := p.Instrs[len(p.Instrs)-1].(*ssa.If)
@@ -90,7 +95,10 @@ func upperBounded(b *ssa.BasicBlock, v ssa.Value) bool {
 						op = token.GTR
 					}
 				}
-				if op == token.LSS || op == token.LEQ {
+				if upper && (op == token.LSS || op == token.LEQ) {
+					return true
+				}
+				if !upper && (op == token.GTR || op == token.GEQ) {
 					return true
 				}
 			}
@@ -153,6 +161,9 @@ func taintedAllocs(fn *ssa.Function) (found []taintFinding, sized int) {
 			sized++
 			if parsedNumber(s) && !upperBounded(in.Block(), s) {
 				found = append(found, taintFinding{in, what})
+			} else if parsedNumber(s) && !lowerBounded(in.Block(), s) {
+				// bounded from above only: a negative count still panics (makeslice / Grow: negative count)
+				found = append(found, taintFinding{in, what + " (no lower bound)"})
 			}
 		}
 	})
